@@ -187,8 +187,22 @@ GlueOnlyAtRemovedComments ==
        /\ Len(cb) = Len(inv)
        /\ \A i \in 1..(Len(inv) - 1) : (~cb[i + 1]) => cin[i] \in cout
 
+\* finding C08-truncate-cuts-after-backslash: some literal's truncated form ends  ...\ marker '  with an odd run of
+\* backslashes directly before the marker-less closing quote
+TrailingBackslashes(s) == LET RECURSIVE Cnt(_)
+                              Cnt(i) == IF i >= 1 /\ s[i] = 92 THEN 1 + Cnt(i - 1) ELSE 0
+                          IN Cnt(Len(s))
+CutBehindBackslash ==
+    /\ O.truncate_strings # "unset"
+    /\ \E i \in 1..Len(T.insig) :
+         LET t == T.insig[i]  v == Truncated(t.val) IN
+           /\ t.k = "str" /\ v # t.val
+           /\ TrailingBackslashes(SubSeq(v, 1, Len(v) - 1)) % 2 = 1
+
 FinalClause ==
     CASE T.exc # "" -> "exception"
+      [] Check68 /\ PlainOutput /\ ~SameSig(Expected, OutSig) /\ CutBehindBackslash
+           -> "truncate:cut-directly-behind-a-backslash"
       [] Check68 /\ PlainOutput /\ IsTrue("strip_comments") /\ ~SameSig(Expected, OutSig)
            /\ GlueOnlyAtRemovedComments
            -> "strip-comments:glues-neighbours-of-removed-comment"
